@@ -120,6 +120,13 @@ func HostileRandom(t *rapid.T) (src, family string) {
 		return HostileFill(tm, a, b), "template"
 	case 3, 4:
 		return hostilePrelude + "func f() {\n\t_ = " + hostileConst(t, rapid.IntRange(1, 5).Draw(t, "cdepth")) + "\n}\n", "extreme-constant"
+	case 6:
+		// extreme constants where a big-number type is expected (meaningful under the XGo-builtin
+		// configuration; plain named types otherwise)
+		ctx := []string{"var x builtin.XGo_bigint = %s", "var x builtin.XGo_bigrat = %s", "var x builtin.XGo_bigfloat = %s", "var x = builtin.XGo_bigint(%s)", "var x = builtin.XGo_bigrat(%s)", "var x = builtin.Int128(%s)", "var x = builtin.Uint128(%s)", "var x builtin.XGo_bigint = vbi + %s", "var x = vbr * %s", "var x = vbi << %s"}
+		c := ctx[rapid.IntRange(0, len(ctx)-1).Draw(t, "bctx")]
+		pre := strings.Replace(hostilePrelude, "package main\n", "package main\n\nimport \"github.com/goplus/gogen/internal/builtin\"\n\nvar (\n\tvbi builtin.XGo_bigint\n\tvbr builtin.XGo_bigrat\n)\n", 1)
+		return pre + fmt.Sprintf(c, hostileConst(t, rapid.IntRange(0, 2).Draw(t, "cdepth"))) + "\n", "extreme-constant-bignum"
 	case 5:
 		ctx := []string{"var x = %s", "const c = %s", "var x [%s]int", "var x int = %s", "var x uint8 = %s", "var x float32 = %s", "var x = vxs[%s]", "var x = vi << %s", "var x = vu8 + %s"}
 		c := ctx[rapid.IntRange(0, len(ctx)-1).Draw(t, "ctx")]
@@ -148,7 +155,7 @@ func hostileOperand(t *rapid.T, label string) string {
 
 var hostileAtoms = []string{
 	"0", "1", "-1", "255", "256", "1 << 31", "1 << 32", "1 << 62", "1 << 63", "1 << 64", "1 << 70", "1 << 511", "1 << 512", "-1 << 63", "9223372036854775807", "9223372036854775808", "18446744073709551615", "18446744073709551616",
-	"1e308", "1e309", "1e-400", "1e1000", "0.1", "1.5", "2.0", "1i", "1e400i", "'a'", "'\\U0010FFFF'", `"s"`, `""`, "true", "false", "nil",
+	"1e308", "1e309", "1e-400", "1e1000", "1e2000", "1e-2000", "1e5000", "1.5e-3000", "0.1", "1.5", "2.0", "1i", "1e400i", "'a'", "'\\U0010FFFF'", `"s"`, `""`, "true", "false", "nil",
 	"int8(127)", "int8(-128)", "uint8(255)", "uint8(200)", "int64(1) << 62", "uint64(1) << 63", "float32(1e38)", "float64(1e308)", "complex64(1)", "uint(0)", "int32('a')", "string('a')", "vi", "vu", "vu8", "vf",
 }
 
@@ -208,6 +215,12 @@ func HostileNest(kind, n int) string {
 		b.WriteString("var x = " + strings.Repeat("id(", n) + "vi" + strings.Repeat(")", n) + "\n")
 	case 8: // nested composite literals / pointer types
 		b.WriteString("var x " + strings.Repeat("*", n) + "int\nvar y " + strings.Repeat("[]", n) + "int\n")
+	case 10: // layered diamond embedding, n layers: T(i) embeds U(i) and V(i), both embed T(i-1); a member declared nowhere
+		b.WriteString("type T0 struct{ a0 int }\n")
+		for i := 1; i <= n; i++ {
+			fmt.Fprintf(&b, "type U%d struct{ T%d }\ntype V%d struct{ T%d }\ntype T%d struct {\n\tU%d\n\tV%d\n}\n", i, i-1, i, i-1, i, i, i)
+		}
+		fmt.Fprintf(&b, "var vt T%d\nvar x = vt.nosuch\n", n)
 	default: // constant expression chains
 		b.WriteString("const c = 1" + strings.Repeat(" * 3 / 3", n) + "\nvar x = \"a\"" + strings.Repeat(" + \"a\"", n) + "\n")
 	}
